@@ -134,3 +134,18 @@ def h_twin_kernel(inp, body):
             return {"reproduced": True, "observed": {"outputs": obs, "args": a2,
                                                      "found_by": "random search around the model"}}
     return {"reproduced": False, "observed": {"outputs": obs}}
+
+
+def h_nikuradse_gas_constant(inp, body):
+    """the documented Nikuradse term 1/(-2 log10(k/(3.71 d)))^2 vs. the gas kernels' 1/(2 log10(d/k)+1.14)^2"""
+    if inp.get("use_numba"):
+        from pandapipes.pf.derivative_toolbox_numba import calc_lambda_nikuradse_comp_numba as f
+    else:
+        from pandapipes.pf.derivative_toolbox import calc_lambda_nikuradse_comp_np as f
+    m = np.array([0.3]); d = np.array([0.1]); k = np.array([1e-4]); eta = np.array([1.1e-5]); a = np.array([0.00785])
+    re, lam_lam, lam_t = f(m, d, k, eta, a)
+    doc = 1.0 / (-2 * math.log10(k[0] / (3.71 * d[0]))) ** 2
+    rel = abs(lam_t[0] - doc) / doc
+    return {"reproduced": bool(rel > 1e-9),
+            "observed": {"lambda_turbulent_code": float(lam_t[0]), "documented": doc, "relative_deviation": rel,
+                         "input": {"d": 0.1, "k": 1e-4}}}
